@@ -358,7 +358,24 @@ impl fmt::Display for IterableKind {
     fn fmt(&self, f: &mut fmt::Formatter<'_>) -> fmt::Result {
         //TODO should i turn this into a self.to_primitive_set()  and then iterate and stringify?
         let s = match self {
-            IterableKind::Numbers(v) => format!("{:?}", v),
+            //Debug prints tiny and huge floats in exponent notation (1e-6), which the
+            //grammar cannot read back: those entries are written in plain decimals
+            IterableKind::Numbers(v) => format!(
+                "[{}]",
+                v.iter()
+                    .map(|n| {
+                        let s = format!("{:?}", n);
+                        if !s.contains('e') {
+                            s
+                        } else if n.fract() == 0.0 {
+                            format!("{}.0", n)
+                        } else {
+                            n.to_string()
+                        }
+                    })
+                    .collect::<Vec<_>>()
+                    .join(", ")
+            ),
             IterableKind::Integers(v) => format!("{:?}", v),
             IterableKind::Anys(v) => format!("{:?}", v),
             IterableKind::PositiveIntegers(v) => format!("{:?}", v),
